@@ -4,7 +4,7 @@
    known q h = bits [0,8q] and [57,63] of h = what a bucket keeps next to an element of class q. *)
 From Coq Require Import ZArith List.
 From MomoCommon Require Import GenPrelude.
-From C12 Require Gen_Base Gen_O2 Gen_O2MP Gen_P4 Gen_One Known P4_Model P4_Slot P4_Bucket O2_Slot Chain O2_Bucket MP_Open2N2 TableO2 TableO2_Proofs TableP4 TableP4_Proofs TableOne TableOne_Proofs Refuted TableO2_Find SameCode Gen_O2set TableP4_Find Gen_P4A P4A_Refine Gen_P4A16 P4A_Refine16 Chains PtrState Gen_Ptr32 Gen_Ptr48 Gen_Ptr64 GensFind Gen_HSFind Gen_HSFindIn HSFind_Refine Gen_HSAdd Gen_HSReloc HSReloc_Refine Establish.
+From C12 Require Gen_Base Gen_O2 Gen_O2MP Gen_P4 Gen_One Known P4_Model P4_Slot P4_Bucket O2_Slot Chain O2_Bucket MP_Open2N2 TableO2 TableO2_Proofs TableP4 TableP4_Proofs TableOne TableOne_Proofs Refuted TableO2_Find SameCode Gen_O2set TableP4_Find Gen_P4A P4A_Refine Gen_P4A16 P4A_Refine16 Chains PtrState Gen_Ptr32 Gen_Ptr48 Gen_Ptr64 GensFind Gen_HSFind Gen_HSFindIn HSFind_Refine Gen_HSAdd Gen_HSReloc HSReloc_Refine Establish NoExn.
 Import ListNotations.
 Local Open Scope Z_scope.
 
@@ -1217,3 +1217,45 @@ Theorem C12_generated_growth_loops_nonvacuous :
   end = true.
 Proof. exact Establish.gen_loops_nonvacuous. Qed.
 Print Assumptions C12_generated_growth_loops_nonvacuous.
+
+(* ---- Open2N2: the `Exn => True` escape is NOT taken when migrating into a fresh larger table ---- *)
+(* triangular probing visits every bucket of a table of 2^n buckets within 2^n probes (C13's ProbeSeq proof, re-proved here for pidx) *)
+Theorem C12_open2n2_probe_path_covers_table :
+  forall n start, 0 <= n <= 63 -> forall b, 0 <= b < 2 ^ n -> exists p, 0 <= p < 2 ^ n /\ TableO2_Proofs.pidx n start p = b.
+Proof. exact NoExn.pidx_covers. Qed.
+Print Assumptions C12_open2n2_probe_path_covers_table.
+
+(* pvAddNogrow does not throw "Hash table is full" when some bucket holds fewer than 3 elements *)
+Theorem C12_open2n2_addnogrow_no_exception_when_a_bucket_is_free :
+  forall hash L t code key, 0 <= L <= 63 -> TableO2_Proofs.Tinv hash L t -> 0 <= code < 2 ^ 64 ->
+    (exists b, 0 <= b < 2 ^ L /\ TableO2.cnt (t b) < 3) -> TableO2.add_nogrow t L code key <> Exn.
+Proof. exact NoExn.add_nogrow_not_exn. Qed.
+Print Assumptions C12_open2n2_addnogrow_no_exception_when_a_bucket_is_free.
+
+(* element_found_after_growth WITHOUT the escape (element-count invariant: #old + #new <= 3 * 2^L < 3 * 2^newL): the migration into a
+   fresh table of 2^newL > 2^L buckets returns Ok, the new table satisfies its invariant and every key is Found *)
+Theorem C12_open2n2_element_found_after_growth_no_exception :
+  forall hash, (forall k, 0 <= hash k < 2 ^ 64) -> forall L newL, 0 <= L -> L < newL <= 63 ->
+  forall told, TableO2_Proofs.Tinv hash L told ->
+    exists told' tnew, TableO2.migrate hash told L newL = Ok (told', tnew) /\ TableO2_Proofs.Tinv hash newL tnew /\
+      (forall k, TableO2_Proofs.Present L told k -> TableO2_Proofs.Found hash newL tnew k).
+Proof. exact NoExn.migrate_found_ok. Qed.
+Print Assumptions C12_open2n2_element_found_after_growth_no_exception.
+
+(* ... for the GENERATED pvRelocateItems / pvAddNogrow loops *)
+Theorem C12_open2n2_element_found_after_growth_generated_loops_no_exception :
+  forall hash, (forall k, 0 <= hash k < 2 ^ 64) -> forall L newL told, 0 <= L -> L < newL <= 63 -> TableO2_Proofs.Tinv hash L told ->
+    exists told' tnew, HSReloc_Refine.o2_gen_reloc hash L newL told TableO2.empty_table = Ok (told', tnew) /\
+      TableO2_Proofs.Tinv hash newL tnew /\ (forall k, TableO2_Proofs.Present L told k -> TableO2_Proofs.Found hash newL tnew k).
+Proof. exact NoExn.o2_gen_reloc_found_ok. Qed.
+Print Assumptions C12_open2n2_element_found_after_growth_generated_loops_no_exception.
+
+(* ... and for ANY chain of growths (hand model and generated loops agree and return Ok) *)
+Theorem C12_open2n2_find_after_any_chain_of_growths_no_exception :
+  forall hash, (forall k, 0 <= hash k < 2 ^ 64) ->
+  forall Ls L t, 0 <= L <= 63 -> Chains.increasing L Ls -> TableO2_Proofs.Tinv hash L t ->
+    exists t' L', TableO2.grow_chain hash t L Ls = Ok (t', L') /\ HSReloc_Refine.o2_gen_grow_chain hash t L Ls = Ok (t', L') /\
+      TableO2_Proofs.Tinv hash L' t' /\
+      (forall k, TableO2_Proofs.Present L t k -> exists r, TableO2.find t' L' k (hash k) = Ok r /\ TableO2_Find.hit hash L' t' k r).
+Proof. exact NoExn.grow_chain_find_ok. Qed.
+Print Assumptions C12_open2n2_find_after_any_chain_of_growths_no_exception.
